@@ -347,6 +347,12 @@ func keyErrorCommitTsExpired(key []byte, commitTs, minCommitTs uint64) *pb.KeyEr
 }
 
 func commitKey(db *NoKV.DB, reader *Reader, key []byte, lock *Lock, commitVersion uint64) *pb.KeyError {
+	if commitVersion < lock.Ts {
+		// As in Commit: a record below the start version is never found again by its start
+		// version, so a resolver that sends one would leave a committed transaction that can
+		// still be rolled back.
+		return keyErrorAbort("commit version below start version")
+	}
 	if lock.MinCommitTs > commitVersion {
 		return keyErrorCommitTsExpired(key, commitVersion, lock.MinCommitTs)
 	}
